@@ -10,7 +10,6 @@ import (
 	"io"
 	"os"
 
-	spooky "github.com/dgryski/go-spooky"
 	"github.com/repustate/go-cdb/portablemmap"
 )
 
@@ -134,7 +133,7 @@ func (c *Cdb) find(key []byte, context *Context) (err error) {
 
 	klen := uint32(len(key))
 	if context.loop == 0 {
-		h = spooky.Hash32(key)
+		h = hashKey(key)
 		context.hpos, context.hslots = c.readNums((h<<3)&2047,
 			context)
 		if context.hslots == 0 {
